@@ -88,6 +88,7 @@ def gen_iface(rng, idx):
     spawn = rng.random() < 0.8
     out = []
     meta_methods, meta_props, meta_signals = [], [], []
+    px_methods, px_props, px_signals = [], [], []
     fields = []
     body = []
 
@@ -150,6 +151,7 @@ def gen_iface(rng, idx):
         body.append(docs(rng))
         body.append(f"    #[zbus(name = {rs_str(member)})]\n")
         body.append(f"    {'async ' if is_async else ''}fn {fn}({', '.join(params)}) -> {ret} {{\n" + "\n".join(lines) + "\n    }\n\n")
+        px_methods.append({"fn": fn, "member": member, "ins": ins, "outs": outs, "fallible": fallible, "salt": salt})
         meta_methods.append(
             f"MethodMeta {{ name: {rs_str(member)}, ins: &[{', '.join(rs_str(s) for s, _ in ins)}], outs: &[{', '.join(rs_str(s) for s, _ in outs)}], "
             f"fallible: {fallible}, salt: {salt}, mutating: {'true' if mutating else 'false'}, is_async: {'true' if is_async else 'false'} }}")
@@ -183,6 +185,8 @@ def gen_iface(rng, idx):
                             f"        self.p_{fn} = v;\n        Ok(())\n    }}\n\n")
             else:
                 body.append(f"    fn set_{fn}(&mut self, v: {t}) {{\n        self.p_{fn} = v;\n    }}\n\n")
+        px_props.append({"fn": fn, "name": pname, "sig": s, "ty": t, "read": access != "write", "write": access != "read", "emits": emits,
+                         "fallible_setter": fallible_setter and access != "read", "init_seed": init_seed})
         meta_props.append(
             f"PropMeta {{ name: {rs_str(pname)}, sig: {rs_str(s)}, read: {'true' if access != 'write' else 'false'}, write: {'true' if access != 'read' else 'false'}, "
             f"emits: {rs_str(emits)}, fallible_setter: {'true' if (fallible_setter and access != 'read') else 'false'}, init_seed: {init_seed} }}")
@@ -190,7 +194,8 @@ def gen_iface(rng, idx):
     # ---- signals, each with an emitter method
     ns = rng.randint(0, 3)
     for k in range(ns):
-        sname = rng.choice([f"S{k}", f"Sig{k}Changed"])
+        # (unique across interfaces: the generated proxies define types named after the signal in the same module)
+        sname = rng.choice([f"S{k}I{idx}", f"Sig{k}ChangedI{idx}"])
         fn = f"s{k}"
         nargs = rng.choice([0, 1, 1, 2, 3])
         args = [gen_type(rng, 0, "sigarg") for _ in range(nargs)]
@@ -203,17 +208,163 @@ def gen_iface(rng, idx):
         body.append(f"    #[zbus(name = {rs_str(emitter)})]\n")
         body.append(f"    async fn emit_{fn}(&self, seed: u64, #[zbus(signal_emitter)] emitter: SignalEmitter<'_>) -> bool {{\n"
                     f"        Self::{fn}(&emitter{call_args}).await.is_ok()\n    }}\n\n")
+        px_signals.append({"fn": fn, "name": sname, "args": args})
         meta_signals.append(f"SignalMeta {{ name: {rs_str(sname)}, args: &[{', '.join(rs_str(s) for s, _ in args)}], emitter: {rs_str(emitter)} }}")
 
     out.append(f"pub struct {struct} {{\n    pub instance: u32,\n    pub calls: u64,\n" + "".join(f"    pub {f}: {t},\n" for f, t, _ in fields) + "}\n\n")
     out.append(f"impl {struct} {{\n    pub fn new(instance: u32) -> Self {{\n        {struct} {{ instance, calls: 0, " + ", ".join(f"{f}: Gen::from_seed({seed}u64)" for f, _, seed in fields) + " }\n    }\n}\n\n")
     out.append(docs(rng, ""))
-    attrs = f"name = {rs_str(name)}" + ("" if spawn else ", spawn = false")
+    attrs = f"name = {rs_str(name)}" + ("" if spawn else ", spawn = false") + ', proxy(gen_blocking = true, default_path = "/g", default_service = "t.gen")'
     out.append(f"#[zbus::interface({attrs})]\nimpl {struct} {{\n" + "".join(body) + "}\n\n")
+    info = {"idx": idx, "struct": struct, "methods": px_methods, "props": px_props, "signals": px_signals}
     meta = (f"IfaceMeta {{ index: {idx}, name: {rs_str(name)}, spawn: {'true' if spawn else 'false'},\n        methods: &[\n            "
             + ",\n            ".join(meta_methods) + "],\n        props: &[\n            " + ",\n            ".join(meta_props) + "],\n        signals: &[\n            "
             + ",\n            ".join(meta_signals) + "] }")
-    return "".join(out), meta, struct
+    return "".join(out), meta, struct, info
+
+
+
+def ret_type(outs):
+    if not outs:
+        return "()"
+    if len(outs) == 1:
+        return outs[0][1]
+    return "(" + ", ".join(t for _, t in outs) + ")"
+
+
+def proxy_ops(info, aw, blocking):
+    """Rust match arms exercising one interface through its generated proxy. Returns (arms, labels)."""
+    idx = info["idx"]
+    arms, labels = [], []
+    op = 0
+    for m in info["methods"]:
+        nin = len(m["ins"])
+        lets = "".join(f"                let a{j}: {t} = Gen::from_seed(mix(seed, {j}));\n" for j, (_, t) in enumerate(m["ins"]))
+        digests = ", ".join(f"a{j}.digest()" for j in range(nin))
+        call_args = ", ".join(f"a{j}" for j in range(nin))
+        outs = m["outs"]
+        if len(outs) == 0:
+            want = "()"
+        elif len(outs) == 1:
+            want = "Gen::from_seed(mix(d, 0))"
+        else:
+            want = "(" + ", ".join(f"Gen::from_seed(mix(d, {j}))" for j in range(len(outs))) + ")"
+        member = rs_str(m["member"])
+        # the generated proxy methods return the interface method's own error type
+        if m["fallible"] == 0:
+            fail_block = ""
+        elif m["fallible"] == 1:
+            fail_block = f"""                if d % 4 == 0 {{
+                    return match r {{
+                        Err(zbus::fdo::Error::Failed(t)) if t.contains(&format!("f{{d}}")) => Ok(()),
+                        other => Err(format!("handler-error-not-relayed|{{}}|{{:?}}", {member}, other.map(|_| ()))),
+                    }};
+                }}
+"""
+        else:
+            fail_block = f"""                if d % 4 == 0 {{
+                    return match r {{
+                        Err(GenError::Custom(t)) if t.contains(&format!("c{{d}}")) => Ok(()),
+                        other => Err(format!("handler-error-not-relayed|{{}}|{{:?}}", {member}, other.map(|_| ()))),
+                    }};
+                }}
+"""
+        arms.append(f"""            {op} => {{
+{lets}                let d = args_digest({m['salt']}u64, &[{digests}]);
+                let _ = take_log();
+                let r = p.{m['fn']}({call_args}){aw};
+                let log = take_log();
+                let want_inv = Invocation {{ iface: {idx}, instance, member: {member}, digest: d }};
+                if log != vec![want_inv.clone()] {{
+                    return Err(format!("handler-saw-other-arguments|{{}}|handler log {{:?}}, the caller's arguments imply {{:?}}", {member}, log, want_inv));
+                }}
+{fail_block}                let want: {ret_type(outs)} = {want};
+                match r {{
+                    Ok(got) => if got == want {{ Ok(()) }} else {{ Err(format!("proxy-call-result-differs|{{}}|got {{:?}} expected {{:?}}", {member}, got, want)) }},
+                    Err(e) => Err(format!("proxy-call-failed|{{}}|{{e:?}}", {member})),
+                }}
+            }}
+""")
+        labels.append(f"call:{m['member']}")
+        op += 1
+    for k, pr in enumerate(info["props"]):
+        pname = rs_str(pr["name"])
+        if pr["read"]:
+            arms.append(f"""            {op} => {{
+                let want: {pr['ty']} = Gen::from_seed(model[{k}]);
+                match p.{pr['fn']}(){aw} {{
+                    Ok(got) => if got == want {{ Ok(()) }} else {{ Err(format!("property-read-differs|{{}}|emits={pr['emits']} got {{:?}} server holds {{:?}}", {pname}, got, want)) }},
+                    Err(e) => Err(format!("property-read-failed|{{}}|{{e}}", {pname})),
+                }}
+            }}
+""")
+            labels.append(f"get:{pr['name']}")
+            op += 1
+        if pr["write"]:
+            arms.append(f"""            {op} => {{
+                let v: {pr['ty']} = Gen::from_seed(seed);
+                let refuse = {'true' if pr['fallible_setter'] else 'false'} && v.digest() % 5 == 0;
+                match p.set_{pr['fn']}(v){aw} {{
+                    Ok(()) => if refuse {{ Err(format!("setter-refusal-not-relayed|{{}}|", {pname})) }} else {{ model[{k}] = seed; Ok(()) }},
+                    Err(e) => if refuse {{ Ok(()) }} else {{ Err(format!("property-write-failed|{{}}|{{e}}", {pname})) }},
+                }}
+            }}
+""")
+            labels.append(f"set:{pr['name']}")
+            op += 1
+    for sg in info["signals"]:
+        sname = rs_str(sg["name"])
+        lets = "".join(f"                let a{j}: {t} = Gen::from_seed(mix(seed, {j}));\n" for j, (_, t) in enumerate(sg["args"]))
+        cmp_ = " && ".join(f"*args.a{j}() == a{j}" for j in range(len(sg["args"]))) or "true"
+        nxt = "st.next()" if blocking else "st.next().await"
+        if sg["args"]:
+            args_check = (f"                        let args = sig.args().map_err(|e| format!(\"signal-args-unreadable|{{}}|{{e}}\", {sname}))?;\n"
+                          f"                        if {cmp_} {{ Ok(()) }} else {{ Err(format!(\"signal-args-differ|{{}}|{{:?}}\", {sname}, args)) }}")
+        else:
+            args_check = "                        let _ = sig;\n                        Ok(())"
+        arms.append(f"""            {op} => {{
+{lets}                let mut st = p.receive_{sg['fn']}(){aw}.map_err(|e| format!("signal-subscription-failed|{{}}|{{e}}", {sname}))?;
+                match p.emit_{sg['fn']}(seed){aw} {{
+                    Ok(true) => {{}}
+                    other => return Err(format!("signal-emitter-call-failed|{{}}|{{:?}}", {sname}, other)),
+                }}
+                match {nxt} {{
+                    Some(sig) => {{
+{args_check}
+                    }}
+                    None => Err(format!("signal-stream-ended|{{}}|", {sname})),
+                }}
+            }}
+""")
+        labels.append(f"signal:{sg['name']}")
+        op += 1
+    return "".join(arms), labels
+
+
+def proxy_drivers(infos):
+    out = ["\n// ---- drivers exercising the proxies the interface macro generated (property C33)\n",
+           "pub enum AnyProxy {\n" + "".join(f"    {i['struct']}({i['struct']}Proxy<'static>),\n" for i in infos) + "}\n\n",
+           "pub enum AnyProxyBlocking {\n" + "".join(f"    {i['struct']}({i['struct']}ProxyBlocking<'static>),\n" for i in infos) + "}\n\n",
+           "fn es<E: std::fmt::Display>(e: E) -> String {\n    format!(\"proxy-build-failed|-|{e}\")\n}\n\n"]
+    out.append("pub async fn px_build(conn: &zbus::Connection, iface: usize, path: &'static str, cache: zbus::proxy::CacheProperties) -> Result<AnyProxy, String> {\n    match iface {\n"
+               + "".join(f"        {i['idx']} => {i['struct']}Proxy::builder(conn).path(path).map_err(es)?.destination(\"t.gen\").map_err(es)?.cache_properties(cache).build().await.map(AnyProxy::{i['struct']}).map_err(es),\n" for i in infos)
+               + "        _ => Err(\"proxy-build-failed|-|no such interface\".into()),\n    }\n}\n\n")
+    out.append("pub fn bpx_build(conn: &zbus::blocking::Connection, iface: usize, path: &'static str, cache: zbus::proxy::CacheProperties) -> Result<AnyProxyBlocking, String> {\n    match iface {\n"
+               + "".join(f"        {i['idx']} => {i['struct']}ProxyBlocking::builder(conn).path(path).map_err(es)?.destination(\"t.gen\").map_err(es)?.cache_properties(cache).build().map(AnyProxyBlocking::{i['struct']}).map_err(es),\n" for i in infos)
+               + "        _ => Err(\"proxy-build-failed|-|no such interface\".into()),\n    }\n}\n\n")
+    label_rows = []
+    a_arms, b_arms = [], []
+    for i in infos:
+        arms, labels = proxy_ops(i, ".await", False)
+        barms, _ = proxy_ops(i, "", True)
+        label_rows.append("    &[" + ", ".join(rs_str(l) for l in labels) + "],\n")
+        a_arms.append(f"        AnyProxy::{i['struct']}(p) => match op {{\n{arms}            _ => Ok(()),\n        }},\n")
+        b_arms.append(f"        AnyProxyBlocking::{i['struct']}(p) => match op {{\n{barms}            _ => Ok(()),\n        }},\n")
+    out.append("pub static PX_OPS: &[&[&str]] = &[\n" + "".join(label_rows) + "];\n\n")
+    out.append("pub static PX_PROP_SEEDS: &[&[u64]] = &[\n" + "".join("    &[" + ", ".join(f"{p['init_seed']}" for p in i["props"]) + "],\n" for i in infos) + "];\n\n")
+    out.append("pub async fn px_op(p: &AnyProxy, op: usize, seed: u64, instance: u32, model: &mut Vec<u64>) -> Result<(), String> {\n    use futures_lite::StreamExt;\n    match p {\n" + "".join(a_arms) + "    }\n}\n\n")
+    out.append("pub fn bpx_op(p: &AnyProxyBlocking, op: usize, seed: u64, instance: u32, model: &mut Vec<u64>) -> Result<(), String> {\n    match p {\n" + "".join(b_arms) + "    }\n}\n")
+    return "".join(out)
 
 
 def main():
@@ -224,11 +375,13 @@ def main():
              "use crate::support::*;\nuse std::collections::HashMap;\nuse zbus::object_server::SignalEmitter;\nuse zvariant::{OwnedObjectPath, OwnedValue};\n\n"
              "#[derive(Debug, zbus::DBusError)]\n#[zbus(prefix = \"t.gen.Error\")]\npub enum GenError {\n    #[zbus(error)]\n    ZBus(zbus::Error),\n    Custom(String),\n}\n\n"]
     metas, structs = [], []
+    infos = []
     for i in range(count):
-        code, meta, struct = gen_iface(rng, i)
+        code, meta, struct, info = gen_iface(rng, i)
         parts.append(code)
         metas.append(meta)
         structs.append(struct)
+        infos.append(info)
     parts.append("pub static IFACES: &[IfaceMeta] = &[\n    " + ",\n    ".join(metas) + ",\n];\n\n")
     parts.append("pub async fn register(os: &zbus::ObjectServer, iface: usize, path: &str, instance: u32) -> zbus::Result<bool> {\n    match iface {\n"
                  + "".join(f"        {i} => os.at(path, {s}::new(instance)).await,\n" for i, s in enumerate(structs))
@@ -236,6 +389,7 @@ def main():
     parts.append("pub async fn unregister(os: &zbus::ObjectServer, iface: usize, path: &str) -> zbus::Result<bool> {\n    match iface {\n"
                  + "".join(f"        {i} => os.remove::<{s}, _>(path).await,\n" for i, s in enumerate(structs))
                  + "        _ => Ok(false),\n    }\n}\n")
+    parts.append(proxy_drivers(infos))
     text = "".join(parts)
     try:
         with open(path) as f:
